@@ -12,13 +12,21 @@ import numpy as np
 FLOAT_RTOL = 1e-9  # verdict tolerance (bit equality expected; differences are counted)
 
 
+class TracerOverflow(Exception):
+    """The exact expression grew beyond the budget of a run (the run is skipped, not judged)."""
+
+
+TRACER_LIMIT = 4000
+
+
 class T:
-    __slots__ = ("terms", "_h")
+    __slots__ = ("terms", "_h", "_k")
     __array_ufunc__ = None
 
     def __init__(self, terms):
         self.terms = {w: c for w, c in terms.items() if c != 0}
         self._h = None
+        self._k = None
 
     @staticmethod
     def gen(name):
@@ -26,11 +34,14 @@ class T:
 
     @staticmethod
     def fun(name, arg, *extra):
-        key = arg.key() if isinstance(arg, T) else repr(arg)
+        """Opaque function atom; the argument enters through a digest of its canonical form (hash-consing)."""
+        key = hashlib.sha256(repr(arg.key()).encode()).hexdigest()[:20] if isinstance(arg, T) else repr(arg)
         return T({(((name, key, *extra), False),): Fraction(1)})
 
     def key(self):
-        return tuple(sorted((w, (c.numerator, c.denominator)) for w, c in self.terms.items()))
+        if self._k is None:
+            self._k = tuple(sorted((w, (c.numerator, c.denominator)) for w, c in self.terms.items()))
+        return self._k
 
     def __hash__(self):
         if self._h is None:
@@ -46,6 +57,9 @@ class T:
     def __add__(self, o):
         if not isinstance(o, T):
             return NotImplemented
+        T.work += len(o.terms) + 1
+        if T.work > T.budget:
+            raise TracerOverflow()
         d = dict(self.terms)
         for w, c in o.terms.items():
             d[w] = d.get(w, 0) + c
@@ -59,7 +73,13 @@ class T:
             return NotImplemented
         return self + (-o)
 
+    work = 0
+    budget = 10 ** 9
+
     def _mul(self, o):
+        T.work += len(self.terms) * len(o.terms) + 1
+        if T.work > T.budget or len(self.terms) * len(o.terms) > TRACER_LIMIT * 8:
+            raise TracerOverflow()
         d = {}
         for w1, c1 in self.terms.items():
             for w2, c2 in o.terms.items():
